@@ -59,6 +59,10 @@ def strategy(tier):
       (2, st.tuples(st.just('replace'), st.integers(0, 5)).map(list)),
       # a child is listed, vanishes before it is read and is re-created before the path is listed again
       (1, st.tuples(st.just('vanish'), st.integers(0, 5)).map(list)),
+      # the whole path is deleted while the server set is still reading two freshly listed members
+      (1, st.just(['vanish_parent'])),
+      # the balancer is closed and a new one is opened on the same provider object
+      (1, st.just(['reopen_balancer'])),
   ]
   return st.fixed_dictionaries({
       'initial_parent': st.booleans(),
@@ -110,6 +114,7 @@ def execute(plan):
       prov.next_provider = ChannelProvider(_R())
       lb = prov.CreateSink({SinkProperties.Label: 'svc'})
       lb.Open()
+    lbs = [lb]
 
     def unobserved_incarnations(sset):
       """Deleted incarnations of the watched path that had member children and that this server set's data watch
@@ -151,6 +156,7 @@ def execute(plan):
           key = 'unobserved-path-incarnation'
         raise Violation(ID, key, 'consumer holds %r, tree has %r %s; last events %r; callback errors %r' % (
             sorted(held), sorted(want), where, log[-10:], zk.callback_errors[-3:]))
+      lb = lbs[0]
       if lb is not None and lb._LoadBalancerSink__init_done.is_set():
         got = set((ep.host, ep.port) for ep in lb._servers)
         wantep = set((dict(e)['host'], dict(e)['port']) for e in tree_eps().values())
@@ -197,6 +203,31 @@ def execute(plan):
       elif k == 'other':
         p = PATH + '/other_1'
         (zk.z_create(p, b'x') if op[1] else zk.z_delete(p))
+      elif k == 'reopen_balancer':
+        if lbs[0] is not None:
+          advance(0.03)
+          lbs[0].Close()
+          settle()
+          lbs[0] = prov.CreateSink({SinkProperties.Label: 'svc'})
+          lbs[0].Open()
+          advance(0.03)
+          flags.add('balancer_reopened_on_same_provider')
+      elif k == 'vanish_parent':
+        eps = tree_eps()
+        fresh = [i for i in range(6) if NAMES[i] not in eps and NAMES[i] + 'b' not in eps and ep_of(i) not in eps.values()][:2]
+        if PATH in zk.tree and len(fresh) == 2:
+          advance(0.03)
+          zk.override = {'get_children': 0.0, 'get': 0.002, 'exists': 0.0}
+          for i in fresh:
+            zk.z_create('%s/%s' % (PATH, NAMES[i]), data(i))
+          advance(0.003)                      # the first new member has been read, the second read is in flight
+          for c in zk.children(PATH):
+            zk.z_delete('%s/%s' % (PATH, c))
+          zk.z_delete(PATH)                   # everything goes at once: no listing in between
+          parent_deleted_with_members = True
+          advance(0.01)
+          zk.override = {}
+          flags.add('path_deleted_while_members_being_read')
       elif k == 'delete_parent':
         ch = zk.children(PATH)
         if ch is not None:
@@ -218,8 +249,8 @@ def execute(plan):
         raise HarnessError(op)
     check(len(plan['ops']), ['final'])
     ss.stop()
-    if lb is not None:
-      lb.Close()
+    if lbs[0] is not None:
+      lbs[0].Close()
     settle()
   nt = sorted(flags) or None
   return Outcome(nontrivial=nt, classes=sorted(flags) + (['with_balancer'] if plan['with_balancer'] else []))
